@@ -18,7 +18,7 @@ typedef struct { int present[MAXU], val[MAXU]; } model_t;
 static sm_spec_t SP;
 static long n_unlink_head, n_unlink_mid, n_unlink_tail, n_maxchain;
 
-enum { OP_PUT, OP_REMOVE, OP_CLEAR, OP_SCANREMOVE };
+enum { OP_PUT, OP_REMOVE, OP_CLEAR, OP_SCANREMOVE, OP_ALIAS };
 typedef struct { int kind, k, v; const char *label; } op_t;
 static op_t OPS[96]; static int NOPS; static long n_scanrm, n_scanrm_next;
 static const char *op_label(int op) { return OPS[op].label; }
@@ -124,6 +124,15 @@ static int apply(qhashtbl_t *t, model_t *m, const op_t *op, int check, const cha
             m->present[op->k] = 0; break;
         }
         case OP_CLEAR: t->clear(t); memset(m->present, 0, sizeof m->present); break;
+        case OP_ALIAS: {   /* the name argument is the table's own key string (zero-copy getnext of the v-th element): remove(name) / putstr(name, "hello") */
+            if (m_count(m) <= op->v) return 1;
+            qhashtbl_obj_t o; memset(&o, 0, sizeof o); int n = 0;
+            while (t->getnext(t, &o, false) && n < op->v) n++;
+            int id = keyid(o.name); if (id < 0) { if (check) vc_viol("walk:unknown-key", "%s: walk returned a key that is not stored", after); break; }
+            if (op->k == 0) { bool r = t->remove(t, o.name); if (check && !r) vc_viol("map:remove-result", "%s: remove(key string of the element itself) returned false", after); m->present[id] = 0; }
+            else { bool r = t->putstr(t, o.name, "hello"); if (check && !r) vc_viol("map:put-failed", "%s: putstr(key string of the element itself) returned false", after); m->present[id] = 1; m->val[id] = 1; }
+            break;
+        }
         case OP_SCANREMOVE: {   /* documented: "make sure newmem flag is set if deletion is expected during the scan" - a copying walk, key k removed after the v-th element */
             if (m_count(m) < op->v) return 1;
             qhashtbl_obj_t o; memset(&o, 0, sizeof o); int seen[MAXU] = {0}, n = 0, removed = 0;
@@ -179,6 +188,7 @@ static void setup(void) {
     for (int k = 0; k < U; k++) OPS[NOPS++] = (op_t){OP_REMOVE, k, 0, "qhashtbl_remove"};
     OPS[NOPS++] = (op_t){OP_CLEAR, 0, 0, "qhashtbl_clear"};
     for (int j = 1; j <= 3; j++) for (int k = 0; k < U; k++) OPS[NOPS++] = (op_t){OP_SCANREMOVE, k, j, "qhashtbl_getnext"};
+    for (int j = 0; j < 2; j++) { OPS[NOPS++] = (op_t){OP_ALIAS, 0, j, "qhashtbl_remove"}; OPS[NOPS++] = (op_t){OP_ALIAS, 1, j, "qhashtbl_putstr"}; }
     snprintf(SP.prefix, sizeof SP.prefix, "hashtbl:%d:%d:%d:", RANGE, U, NV);
     SP.nops = NOPS; SP.label = op_label; SP.transition = transition; SP.initial = initial;
 }
